@@ -126,19 +126,27 @@ def truncate(args):
     def body(ctx):
         Individual.counter = 0
         pop = []
+        large = args.get('large')
         for i, dsg in enumerate(designs):
             ind = Individual([float(dsg), 0.5])
-            ind.features['front_number'] = ctx.int('front%d' % i, 1, 3)
-            if ctx.bool('isinf%d' % i):
-                ind.features['crowding_distance'] = math.inf
+            if large and i >= large['symbolic']:
+                # LARGE population: only the first few members are symbolic, the others carry a concrete pattern (two
+                # fronts, distinct finite crowding values and the two infinite extremes), so that sizes far beyond the
+                # fully symbolic bound -- and truncation sizes much smaller than the population -- are reached
+                ind.features['front_number'] = 1 + (i % 2)
+                ind.features['crowding_distance'] = math.inf if i in (n - 1, n - 2) else 0.25 + 0.5 * i
             else:
-                ind.features['crowding_distance'] = ctx.real('crowd%d' % i, 0, None)
+                ind.features['front_number'] = ctx.int('front%d' % i, 1, 3)
+                if ctx.bool('isinf%d' % i):
+                    ind.features['crowding_distance'] = math.inf
+                else:
+                    ind.features['crowding_distance'] = ctx.real('crowd%d' % i, 0, None)
             pop.append(ind)
         for i in range(n):
             for j in range(i + 1, n):
                 if designs[i] == designs[j]:
                     ctx.assume(pop[i].features['front_number'] == pop[j].features['front_number'])
-        k = ctx.int('k', 1, n + 1)
+        k = ctx.int('k', 1, n + 1) if not large else ctx.int('k', 1, large['kmax'])
         res = O.nondominated_truncate(pop, k)
         kc = ctx.concretize(k)
         ctx.output('kept', sorted(x.id for x in res))
@@ -241,6 +249,10 @@ def configs(tier):
     trunc([0, 1, 1], split=32)
     trunc([0, 1, 2, 3], split=64)
     trunc([0, 1, 1, 2], split=64)
+    for n, nsym, kmax in ((6, 1, 2), (9, 2, 2), (13, 1, 3)):
+        out.append({'name': 'trunc-large-n%d-%d-symbolic-k<=%d' % (n, nsym, kmax), 'task': 'truncate',
+                    'args': {'designs': list(range(n)), 'large': {'symbolic': nsym, 'kmax': kmax}}, 'weight': 12 ** nsym * n, 'split': 32,
+                    'engine': {'validate': 40}})
     tour(1, 1)
     tour(2, 2)
     tour(3, 1, split=32)
